@@ -676,6 +676,19 @@ pub fn judge(case: &VmCase, rep: &mut Report, mon: &Monitor, pools: &mut Pools, 
     if let Err(Fail::Unspec(why)) = mres {
         rep.count(&format!("unspecified.{why}"));
         out.unspec = Some(why);
+        // Not judged against the model - but totality and the resource bounds hold for every input, so
+        // the case is still executed (under the cost circuit breaker) unless it could run away.
+        if why != "breadth-cap" && why != "step-cap" {
+            let pool = if case.pool > 0 { Some(pools.get(case.pool) as &rayon::ThreadPool) } else { None };
+            let real = run_real(build_vm(case), build_machine(case), depth, &ctx, 100_000, 0, pool, false, false);
+            rep.count("unspecified.executed_for_totality");
+            for b in mon.bound_violations.lock().unwrap().drain(..) {
+                rep.violation("C05", "bound-exceeded", b, serde_json::to_value(case).unwrap());
+            }
+            if let Err(panic) = real.res {
+                rep.violation("C05", "panic", format!("VM panicked: {panic}"), serde_json::to_value(case).unwrap());
+            }
+        }
         return out;
     }
 
@@ -787,7 +800,7 @@ pub fn judge(case: &VmCase, rep: &mut Report, mon: &Monitor, pools: &mut Pools, 
                         format!("error reported at op {} but the failing op is {} ({})", e.index, m.pc, e.text),
                     ));
                 }
-                if !m_in_child {
+                if !m_in_child && e.index == m.pc {
                     let m_oog = *f == Fail::OutOfGas;
                     if m_oog != e.oog {
                         issues.push(("C07", "oog-class", format!("reference says out_of_gas={m_oog}, VM error is {}", e.text)));
